@@ -33,7 +33,9 @@ Open Scope Z_scope.
 Inductive xspec :=
 | XA (a : aspec)
 | XPsm | XU16Strict | XU16Lenient | XLvList | XHandles32 | XLenBytes16
-| XUuid2 | XUuidRest | XSdpElem | XSeid | XSeidList | XEndpoints | XCaps.
+| XUuid2 | XUuidRest | XSdpElem | XSeid | XSeidList | XEndpoints | XCaps
+| XStr (n : nat)      (* avrcp _string_spec(n): n-octet big-endian length, then the UTF-8 octets *)
+| XU64BE.             (* avrcp _UINT64_BE_METADATA *)
 
 (* ---- helpers *)
 Fixpoint ints_of (vs : list value) : option (list Z) :=
@@ -163,6 +165,8 @@ Definition ser_x (s : xspec) (v : value) : option (list Z) :=
       end
   | XEndpoints, VList vs => epi_list_ser vs
   | XCaps, VList vs => match caps_of vs with Some l => tlv_encode l | None => None end
+  | XStr n, VBytes b => if u_range n (lenZ b) then Some (be_encode n (lenZ b) ++ b) else None
+  | XU64BE, VInt z => if u_range 8 z then Some (be_encode 8 z) else None
   | _, _ => None
   end.
 
@@ -202,6 +206,9 @@ Definition par_x (s : xspec) (prev : Z) (bs : list Z) : option (value * nat) :=
   | XSeidList => Some (VList (vints (map (fun b => Z.shiftr b 2) bs)), length bs)
   | XEndpoints => Some (VList (epi_list_parse bs), length bs)
   | XCaps => match tlv_decode_all true bs with Some l => Some (VList (vcaps l), length bs) | None => None end
+  | XStr n =>                     (* int.from_bytes of a slice: short input is read leniently *)
+      let l := Z.to_nat (be_decode (firstn n bs)) in Some (VBytes (firstn l (skipn n bs)), (n + l)%nat)
+  | XU64BE => Some (VInt (be_decode (firstn 8 bs)), 8%nat)
   end.
 
 Definition inr_x (s : xspec) (prev : Z) (v : value) : bool :=
@@ -223,14 +230,16 @@ Definition inr_x (s : xspec) (prev : Z) (v : value) : bool :=
   | XSeidList, VList vs => match ints_of vs with Some l => forallb seid_ok l | None => false end
   | XEndpoints, VList vs => epi_list_inr vs
   | XCaps, VList vs => match caps_of vs with Some l => tlv_ok l | None => false end
+  | XStr n, VBytes b => u_range n (lenZ b) && bytes_ok b
+  | XU64BE, VInt z => u_range 8 z
   | _, _ => false
   end.
 
-Definition wf_x (s : xspec) : bool := match s with XA a => wf_a a | _ => true end.
+Definition wf_x (s : xspec) : bool := match s with XA a => wf_a a | XStr n => (1 <=? n)%nat | _ => true end.
 Definition tight_x (s : xspec) : bool :=
   match s with
   | XA a => tight_a a
-  | XPsm | XHandles32 | XLenBytes16 | XUuid2 | XSdpElem | XSeid => true
+  | XPsm | XHandles32 | XLenBytes16 | XUuid2 | XSdpElem | XSeid | XStr _ | XU64BE => true
   | _ => false
   end.
 Definition strict_x (s : xspec) : bool := match s with XA a => strict_a a | _ => false end.
@@ -238,6 +247,9 @@ Definition strict_x (s : xspec) : bool := match s with XA a => strict_a a | _ =>
 Definition X_codec : codec :=
   {| spec := xspec; ser := ser_x; par := par_x; inr := inr_x; wf := wf_x; tight := tight_x; strict := strict_x |}.
 Definition XTop_codec : codec := seq_codec X_codec.
+(* with array groups (1-octet item count, then the items): the AVRCP PDUs *)
+Definition XF_codec : codec := field_codec X_codec.
+Definition XFTop_codec : codec := seq_codec XF_codec.
 
 Definition xserialize (fs : list xspec) (vs : list value) : option (list Z) := ser XTop_codec fs (VList vs).
 Definition xparse (fs : list xspec) (prev0 : Z) (bs : list Z) : option (list value * nat) :=
@@ -257,3 +269,16 @@ Fixpoint xkeys_unique (cs : list xcls) : bool :=
   | c :: r => negb (existsb (fun d => (x_proto d =? x_proto c) && (x_code d =? x_code c)) r) && xkeys_unique r
   end.
 Definition xcount (cs : list xcls) (proto : Z) : Z := lenZ (filter (fun c => x_proto c =? proto) cs).
+
+(* AVRCP PDU classes: field lists with array groups.  protocol 5 command, 6 response, 7 event *)
+Record xfcls := mkxf { xf_proto : Z; xf_code : Z; xf_name : String.string; xf_fields : list (gfield xspec) }.
+Definition wf_xfcls (c : xfcls) : bool := wf XFTop_codec (xf_fields c) && zlt 8 (xf_proto c) && byte_ok (xf_code c).
+Definition wf_xfregistry (cs : list xfcls) : bool := forallb wf_xfcls cs.
+Fixpoint xfkeys_unique (cs : list xfcls) : bool :=
+  match cs with
+  | [] => true
+  | c :: r => negb (existsb (fun d => (xf_proto d =? xf_proto c) && (xf_code d =? xf_code c)) r) && xfkeys_unique r
+  end.
+Definition xfserialize (fs : list (gfield xspec)) (vs : list value) : option (list Z) := ser XFTop_codec fs (VList vs).
+Definition xfparse (fs : list (gfield xspec)) (prev0 : Z) (bs : list Z) : option (list value * nat) := par_seq XF_codec fs prev0 bs.
+Definition xfin_range (fs : list (gfield xspec)) (prev0 : Z) (vs : list value) : bool := inr XFTop_codec fs prev0 (VList vs).
